@@ -943,7 +943,7 @@ for _n in (
     "clone", "cat", "stack", "repeat", "flip", "roll", "index", "_unsafe_index", "index_select", "gather", "constant_pad_nd",
     "replication_pad1d", "replication_pad2d", "replication_pad3d", "reflection_pad1d", "reflection_pad2d", "reflection_pad3d",
     "tril", "triu", "diag_embed", "diag", "diagonal_copy", "slice_scatter", "select_scatter", "index_put", "_unsafe_index_put",
-    "new_zeros", "new_empty", "new_ones", "new_full", "zeros_like", "ones_like", "full_like", "empty_like", "expand_copy",
+    "expand_copy",
     "upsample_nearest1d", "upsample_nearest2d", "upsample_nearest3d", "_upsample_nearest_exact1d", "_upsample_nearest_exact2d",
     "_upsample_nearest_exact3d", "slice_backward", "select_backward", "narrow_copy", "permute_copy", "view_copy", "unfold_copy",
     "im2col", "pixel_shuffle", "pixel_unshuffle", "rot90", "take", "take_along_dim", "repeat_interleave", "_pin_memory",
@@ -963,7 +963,7 @@ def _noop(eng, func, args, kwargs, out, pre):
 _noop.no_pre = True
 
 
-@handler("empty_like", "new_empty")
+@handler("empty_like", "new_empty", "new_zeros", "new_ones", "new_full", "zeros_like", "ones_like", "full_like")
 def _empty(eng, func, args, kwargs, out, pre):
     eng.clear_terms(out)
 
@@ -1401,3 +1401,258 @@ def _max_pool(eng, func, args, kwargs, out, pre):
                     eng.branch(tm.le(x[pos + ipos], ct), True)
             res[pos + opos] = ct
     eng.set_terms(vals, res)
+
+
+# ================================================================== backward kernels (C20)
+# Transfer functions of torch's fused backward kernels. Each is the derivative of the corresponding forward transfer
+# function; as for every other op the resulting terms are compared with the real kernel's output at the witness.
+HANDLERS["new_empty_strided"] = _empty
+
+
+@handler("grid_sampler_2d_backward", "grid_sampler_3d_backward")
+def _grid_sampler_backward(eng, func, args, kwargs, out, pre):
+    gout_t, inp, grid, mode, pad, ac = args[:6]
+    mask = list(args[6]) if len(args) > 6 else [True, True]
+    g_in, g_grid = out[0], out[1]
+    if not eng.has(grid):
+        if mask[0]:
+            _probe_linear(eng, func, args, kwargs, out, pre, pos=0, affine=False)
+        if mask[1] and (eng.has(inp) or eng.has(gout_t)):
+            raise UnsupportedOp("grid_sampler backward w.r.t. a concrete grid that requires grad")
+        return
+    if mode != 0 or pad not in (0, 1):
+        raise UnsupportedOp("grid_sampler backward: only (bi/tri)linear with zeros/border padding and a symbolic grid")
+    go = obj(pre.args[0])
+    x = obj(pre.args[1])
+    g = obj(pre.args[2])
+    nd = x.ndim - 2
+    N, C = x.shape[:2]
+    sizes = x.shape[2:]
+    osz = g.shape[1:-1]
+    gi_acc: Dict[tuple, list] = {}
+    gg = np.empty(tuple(g.shape), dtype=object)
+    for n in range(N):
+        for opos in np.ndindex(*osz):
+            raw = [_unnormalize(g[(n,) + opos + (nd - 1 - d,)], sizes[d], bool(ac)) for d in range(nd)]
+            wraw = [eng.evalf(ci) for ci in raw]
+            cidx, cell, scale = [], [], []
+            for d in range(nd):
+                w = wraw[d]
+                hi = sizes[d] - 1
+                sc = tm.const(Fraction(sizes[d] - 1, 2) if ac else Fraction(sizes[d], 2))
+                if pad == 1 and w < 0:
+                    cidx.append(tm.ZERO)
+                    cell.append(0)
+                    scale.append(tm.ZERO)
+                elif pad == 1 and w > hi:
+                    cidx.append(tm.const(hi))
+                    cell.append(max(hi - 1, 0))
+                    scale.append(tm.ZERO)
+                else:
+                    k = int(math.floor(w))
+                    if pad == 1 and k >= hi and hi > 0:
+                        k = hi - 1
+                    cidx.append(raw[d])
+                    cell.append(k)
+                    scale.append(sc)
+            dgrid = [[] for _ in range(nd)]
+            for corner in itertools.product((0, 1), repeat=nd):
+                idx = tuple(cell[d] + corner[d] for d in range(nd))
+                if all(0 <= idx[d] < sizes[d] for d in range(nd)):
+                    src = idx
+                elif pad == 1:
+                    src = tuple(min(max(idx[d], 0), sizes[d] - 1) for d in range(nd))
+                else:
+                    continue
+                ws = []
+                for d in range(nd):
+                    frac = tm.sub(cidx[d], tm.const(cell[d]))
+                    ws.append(frac if corner[d] else tm.sub(tm.ONE, frac))
+                wgt = tm.ONE
+                for d in range(nd):
+                    wgt = tm.mul(wgt, ws[d])
+                for c in range(C):
+                    gi_acc.setdefault((n, c) + src, []).append(tm.mul(go[(n, c) + opos], wgt))
+                for d in range(nd):
+                    dw = tm.ONE if corner[d] else tm.const(-1)
+                    for d2 in range(nd):
+                        if d2 != d:
+                            dw = tm.mul(dw, ws[d2])
+                    for c in range(C):
+                        dgrid[d].append(tm.mul(tm.mul(go[(n, c) + opos], x[(n, c) + src]), dw))
+            for d in range(nd):
+                gg[(n,) + opos + (nd - 1 - d,)] = tm.mul(scale[d], tm.addn(dgrid[d])) if dgrid[d] else tm.ZERO
+    if mask[0]:
+        gi = np.empty(tuple(x.shape), dtype=object)
+        for pos in np.ndindex(*gi.shape):
+            gi[pos] = tm.addn(gi_acc.get(pos, [])) if pos in gi_acc else tm.ZERO
+        eng.set_terms(g_in, gi)
+    if mask[1]:
+        eng.set_terms(g_grid, gg)
+
+
+@handler("convolution_backward")
+def _convolution_backward(eng, func, args, kwargs, out, pre):
+    gout_t, x_t, weight, bias_sizes, stride, padding, dilation, transposed, output_padding, groups, mask = args[:11]
+    if eng.has(weight) or mask[1]:
+        raise UnsupportedOp("convolution backward w.r.t. weights")
+    if not mask[0]:
+        return
+    go = obj(pre.args[0])
+    w = obj(pre.args[2])
+    nd = go.ndim - 2
+    stride = list(stride) * (nd if len(stride) == 1 else 1)
+    padding = list(padding) * (nd if len(padding) == 1 else 1)
+    dilation = list(dilation) * (nd if len(dilation) == 1 else 1)
+    gin = out[0]
+    N, Cin = gin.shape[:2]
+    isz = tuple(gin.shape[2:])
+    Cout = go.shape[1]
+    osz = tuple(go.shape[2:])
+    ks = w.shape[2:]
+    acc: Dict[tuple, list] = {}
+    if not transposed:
+        cin_g = Cin // groups
+        cout_g = Cout // groups
+        for n in range(N):
+            for co in range(Cout):
+                gidx = co // cout_g
+                for opos in np.ndindex(*osz):
+                    gv = go[(n, co) + opos]
+                    for ci in range(cin_g):
+                        for kpos in np.ndindex(*ks):
+                            ipos = tuple(opos[d] * stride[d] - padding[d] + kpos[d] * dilation[d] for d in range(nd))
+                            if all(0 <= ipos[d] < isz[d] for d in range(nd)):
+                                acc.setdefault((n, gidx * cin_g + ci) + ipos, []).append(tm.mul(gv, w[(co, ci) + kpos]))
+    else:
+        cout_g = w.shape[1]
+        cin_g = Cin // groups
+        for n in range(N):
+            for ci in range(Cin):
+                gidx = ci // cin_g
+                for ipos in np.ndindex(*isz):
+                    for cog in range(cout_g):
+                        co = gidx * cout_g + cog
+                        for kpos in np.ndindex(*ks):
+                            opos = tuple(ipos[d] * stride[d] - padding[d] + kpos[d] * dilation[d] for d in range(nd))
+                            if all(0 <= opos[d] < osz[d] for d in range(nd)):
+                                acc.setdefault((n, ci) + ipos, []).append(tm.mul(go[(n, co) + opos], w[(ci, cog) + kpos]))
+    res = np.empty(tuple(gin.shape), dtype=object)
+    for pos in np.ndindex(*res.shape):
+        res[pos] = tm.addn(acc[pos]) if pos in acc else tm.ZERO
+    eng.set_terms(gin, res)
+    if mask[2] and isinstance(out[2], torch.Tensor) and out[2].numel():
+        gb = np.empty((Cout,), dtype=object)
+        for co in range(Cout):
+            gb[co] = tm.addn([go[(n, co) + opos] for n in range(N) for opos in np.ndindex(*osz)])
+        eng.set_terms(out[2], gb)
+
+
+def _loss_backward_scale(go, n, reduction):
+    g = go.reshape(-1)
+    if reduction == 0:
+        return lambda i: g[i]
+    k = tm.const(Fraction(1, max(n, 1))) if reduction == 1 else tm.ONE
+    return lambda i: tm.mul(k, g[0])
+
+
+@handler("huber_loss_backward")
+def _huber_backward(eng, func, args, kwargs, out, pre):
+    reduction, delta = args[3], tm.lift(args[4])
+    go, a, b = obj(pre.a(0)), obj(pre.a(1)), obj(pre.a(2))
+    a, b = np.broadcast_arrays(a, b)
+    sc = _loss_backward_scale(go, a.size, reduction)
+    res = np.empty(a.size, dtype=object)
+    for i, (x, y) in enumerate(zip(a.reshape(-1), b.reshape(-1))):
+        d = tm.sub(x, y)
+        res[i] = tm.mul(sc(i), tm.ite(tm.le(tm.abs_(d), delta), d, tm.mul(delta, tm.sign_(d))))
+    eng.set_terms(out, res.reshape(a.shape))
+
+
+@handler("smooth_l1_loss_backward")
+def _smooth_l1_backward(eng, func, args, kwargs, out, pre):
+    reduction, beta = args[3], tm.lift(args[4])
+    go, a, b = obj(pre.a(0)), obj(pre.a(1)), obj(pre.a(2))
+    a, b = np.broadcast_arrays(a, b)
+    sc = _loss_backward_scale(go, a.size, reduction)
+    res = np.empty(a.size, dtype=object)
+    for i, (x, y) in enumerate(zip(a.reshape(-1), b.reshape(-1))):
+        d = tm.sub(x, y)
+        if tm.isc(beta) and tm.cval(beta) == 0:
+            r = tm.sign_(d)
+        else:
+            r = tm.ite(tm.lt(tm.abs_(d), beta), tm.div(d, beta), tm.sign_(d))
+        res[i] = tm.mul(sc(i), r)
+    eng.set_terms(out, res.reshape(a.shape))
+
+
+@handler("mse_loss_backward")
+def _mse_backward(eng, func, args, kwargs, out, pre):
+    reduction = args[3]
+    go, a, b = obj(pre.a(0)), obj(pre.a(1)), obj(pre.a(2))
+    a, b = np.broadcast_arrays(a, b)
+    sc = _loss_backward_scale(go, a.size, reduction)
+    res = np.empty(a.size, dtype=object)
+    for i, (x, y) in enumerate(zip(a.reshape(-1), b.reshape(-1))):
+        res[i] = tm.mul(sc(i), tm.mul(tm.const(2), tm.sub(x, y)))
+    eng.set_terms(out, res.reshape(a.shape))
+
+
+@handler("_softmax_backward_data")
+def _softmax_backward(eng, func, args, kwargs, out, pre):
+    go, y = obj(pre.a(0)), obj(pre.a(1))
+    dim = args[2]
+    gm, ym = np.moveaxis(go, dim, -1), np.moveaxis(y, dim, -1)
+    res = np.empty(ym.shape, dtype=object)
+    for pos in np.ndindex(*ym.shape[:-1]):
+        s = tm.addn([tm.mul(a, b) for a, b in zip(gm[pos], ym[pos])])
+        for j in range(ym.shape[-1]):
+            res[pos + (j,)] = tm.mul(ym[pos + (j,)], tm.sub(gm[pos + (j,)], s))
+    eng.set_terms(out, np.moveaxis(res, -1, dim))
+
+
+@handler("binary_cross_entropy_with_logits")
+def _bce_logits(eng, func, args, kwargs, out, pre):
+    x, t = obj(pre.a(0)), obj(pre.a(1))
+    w = obj(pre.a(2)) if len(args) > 2 and args[2] is not None else None
+    pw = obj(pre.a(3)) if len(args) > 3 and args[3] is not None else None
+    reduction = args[4] if len(args) > 4 else kwargs.get("reduction", 1)
+    x, t = np.broadcast_arrays(x, t)
+    res = np.empty(x.shape, dtype=object)
+    for pos in np.ndindex(*x.shape):
+        xv, tv = x[pos], t[pos]
+        sp = tm.fn("log", tm.add(tm.ONE, tm.fn("exp", tm.neg(xv))))  # softplus(-x) = -log(sigmoid(x))
+        if pw is not None:
+            p = np.broadcast_to(pw, x.shape)[pos]
+            r = tm.add(tm.mul(tm.sub(tm.ONE, tv), xv), tm.mul(tm.add(tm.ONE, tm.mul(tm.sub(p, tm.ONE), tv)), sp))
+        else:
+            r = tm.add(tm.mul(tm.sub(tm.ONE, tv), xv), sp)
+        if w is not None:
+            r = tm.mul(np.broadcast_to(w, x.shape)[pos], r)
+        res[pos] = r
+    _loss_reduce(eng, out, res, reduction)
+
+
+@handler("tanh_backward")
+def _tanh_backward(eng, func, args, kwargs, out, pre):
+    go, y = obj(pre.a(0)), obj(pre.a(1))
+    eng.set_terms(out, vec(lambda g, v: tm.mul(g, tm.sub(tm.ONE, tm.mul(v, v))), 2)(*np.broadcast_arrays(go, y)))
+
+
+@handler("sigmoid_backward")
+def _sigmoid_backward(eng, func, args, kwargs, out, pre):
+    go, y = obj(pre.a(0)), obj(pre.a(1))
+    eng.set_terms(out, vec(lambda g, v: tm.mul(g, tm.mul(v, tm.sub(tm.ONE, v))), 2)(*np.broadcast_arrays(go, y)))
+
+
+@handler("threshold_backward")
+def _threshold_backward(eng, func, args, kwargs, out, pre):
+    go, x = obj(pre.a(0)), obj(pre.a(1))
+    th = tm.lift(args[2])
+    eng.set_terms(out, vec(lambda g, v: tm.ite(tm.le(v, th), tm.ZERO, g), 2)(*np.broadcast_arrays(go, x)))
+
+
+@handler("log_sigmoid_backward")
+def _logsigmoid_backward(eng, func, args, kwargs, out, pre):
+    go, x = obj(pre.a(0)), obj(pre.a(1))
+    eng.set_terms(out, vec(lambda g, v: tm.mul(g, tm.sub(tm.ONE, tm.fn("sigmoid", v))), 2)(*np.broadcast_arrays(go, x)))
